@@ -401,6 +401,66 @@ PROPS = {
         "level_note": "Trusted: harness/oracle for the described game; a fresh engine+driver of the repository as the metamorphic twin.",
         "technique": "property-based testing (rapid): generated command scripts, model-based + metamorphic oracle (extension == set-up from scratch)",
     },
+    "C04": {
+        "title": "every go is answered by exactly one legal bestmove",
+        "run": "^TestC04_",
+        "level": "exploration",
+        "shards": 16,
+        "timeout": 900,
+        "thorough_scale": 8,
+        "thorough_timeout": 3000,
+        "engines": True,
+        "rule": "C04/bestmove (in-process): the four shipped engines re-wired from their exported parts as in cmd/*/main.go, x Hash "
+                "0/1/16 MB x Noise 0/10/500 x OwnBook on/off; scripts of 1-4 rounds: [ucinewgame] position (opening/book territory, "
+                "shuffled histories with claimable draws, endings near mate/stalemate, generated middlegames) or a repeated go on the "
+                "same position; go in {depth n, movetime t, wtime/btime[/movestogo], depth+movetime (a timer that outlives its search), "
+                "depth+clock, infinite, bare}; the search ends by itself or is stopped after a drawn real-time delay; searches that "
+                "can only end by stop are always stopped. Oracle: between a go and the isready/readyok barrier after its end there is "
+                "exactly one bestmove line, its move is legal (independent oracle) in the position last set up, '0000' only if that "
+                "position has no legal move; a bestmove still missing 20 s after the search must have ended is reported; at quit the "
+                "total number of bestmove lines equals the number of go commands. C04/blackbox: the real cmd/* binaries built from the "
+                "working tree, driven over pipes with the same oracle. Non-trivial = distinct scripts in which a searched position "
+                "has more than one legal move or a go is repeated on the same position. evaluations = scripts.",
+        "assumptions": COMMON_ASSUMPTIONS + ["'ended' is decided by protocol (stop + isready/readyok processed, or the engine's own bestmove), with a 20 s grace period for liveness",
+                                             "clock and movetime variants use real timers; the verdict depends only on count and legality of the answer"],
+        "level_text": "Exploration: ~2.4k scripts (~6k go commands) per quick run in-process plus black-box runs of the real "
+                      "binaries; count, legality and null-move rule are judged for every go.",
+        "level_note": "Trusted: harness/oracle legality; in-process engines are wired by the harness like cmd/*/main.go (the black-box part covers the real wiring).",
+        "technique": "property-based testing (rapid): generated UCI scripts against in-process drivers and the real binaries, protocol-barrier history oracle",
+    },
+    "C16": {
+        "title": "UCI driver under any interleaving",
+        "run": "^TestC16_",
+        "level": "exploration",
+        "shards": 16,
+        "timeout": 900,
+        "thorough_scale": 8,
+        "thorough_timeout": 3000,
+        "race_thorough": True,
+        "gomaxprocs": [16, 4, 1, 16, 2, 16, 8, 1],
+        "rule": "C16/interleave: scripts of 2-25 actions against an in-process UCI driver whose engine searches through a harness "
+                "search.Search that holds every analysis before each iteration >= 2 (depth 1 is never held, because Halt waits for "
+                "it by design). Actions: commands (go depth/infinite/bare/movetime/clock, stop, isready, position, ucinewgame, "
+                "setoption, unknown and malformed lines incl. go lines the driver answers by shutting down, quit) and harness moves "
+                "(release one held iteration, release all, sleep, barrier, close the input). So a command provably arrives while a "
+                "search is pending, two analyses overlap (the old one still held while its successor runs), and quit/EOF happen "
+                "with searches in flight - deterministically. A quarter of the scripts are ungated (real scheduling, GOMAXPROCS "
+                "1..16). History invariant after every command (each is followed by isready/readyok): no panic anywhere (a panic "
+                "kills the shard and the journaled script becomes the replay file); every isready answered within 20 s; at most "
+                "one bestmove between a go and the next go; no bestmove while the CURRENT search is provably still held and no "
+                "stop/timer could have ended it (such a line belongs to a superseded search); every bestmove legal in the position "
+                "current at its go; on quit / end of input / a shutdown line the output closes within 20 s, and releasing every "
+                "held search afterwards must not blow up. Non-trivial = distinct scripts in which a go, stop or isready arrived "
+                "while a search was held, a held iteration was released singly, or shutdown happened with a search in flight; all "
+                "ungated scripts with a go. evaluations = scripts.",
+        "assumptions": COMMON_ASSUMPTIONS + ["the Go scheduler between gates is not owned by the harness", "race-detector reports in these runs are recorded as diagnostics (C17 is where race freedom is demanded)",
+                                             "lines the driver answers by a deliberate shutdown (unparsable go arguments) end the script: clean closure is required"],
+        "level_text": "Exploration with a harness-owned schedule for the orderings that matter (search completion vs command "
+                      "processing vs shutdown), ~2.4k scripts per quick run, plus ungated scripts for scheduler noise; thorough "
+                      "runs the race-instrumented binary.",
+        "level_note": "Trusted: gate wrapper and launch-order attribution of gate events (harness waits for each analysis' first call before sending further commands).",
+        "technique": "stateful property-based testing (rapid) with an injected gated search (harness-owned schedule), history invariant after every step",
+    },
 }
 
 # Properties not claimed, with the reason (kept current).
